@@ -28,6 +28,12 @@
 (* page) is modelled operationally (ScanOffsets) and TLC checks that it    *)
 (* computes WALCommitted (ScanIsCommitted).                                *)
 (*                                                                         *)
+(* Bounds and simplifications: one transaction; at most two segments (one  *)
+(* spill); records in page order; a stale PERSIST tail only under single-  *)
+(* segment transactions (so SQLite's clearing of a stale magic at the next *)
+(* header position is not needed); the write of a header or of one part of *)
+(* a record is atomic (application death, not power loss).                 *)
+(*                                                                         *)
 (* Page contents are versions: 0 = pre-transaction content, 1 = content    *)
 (* written by the transaction, 9 = stale content of an older journal       *)
 (* (journal_mode=PERSIST), -1 = a zero page, 10+i = content of WAL frame i.*)
